@@ -34,7 +34,7 @@ struct Registry {
 struct Obj : public tlx::ReferenceCounter {
     int id;
     int* heap;
-    static int& next_id() { static int n = 1; return n; }
+    static std::atomic<int>& next_id() { static std::atomic<int> n{ 1 }; return n; }
     Obj() : id(next_id()++), heap(new int(id)) { Registry::get().ctor(this); }
     Obj(const Obj& o) : tlx::ReferenceCounter(o), id(next_id()++), heap(new int(*o.heap)) { Registry::get().ctor(this); }   // used by unify()
     Obj& operator=(const Obj&) = delete;
@@ -377,8 +377,8 @@ static void conc_case(Rng& rng) {
     unsigned steps = 3 + (unsigned)rng.below(g_serial ? 6 : 30);
     g_scenario = "concurrent: " + std::to_string(nt) + " threads, " + std::to_string(nobj) + " shared object(s), " + std::to_string(steps) + " steps each";
     std::vector<std::vector<unsigned> > script(nt, std::vector<unsigned>(steps));
-    for (auto& s : script) for (auto& x : s) x = (unsigned)rng.below(8);
-    uint64_t destroyed0 = Registry::get().destroyed;
+    for (auto& s : script) for (auto& x : s) x = (unsigned)rng.below(10);
+    uint64_t destroyed0 = Registry::get().destroyed, constructed0 = Registry::get().constructed;
     dsched::Sched& S = dsched::S();
     S.context = "counting_ptr";
     S.begin(rng.next(), (int)rng.below(dsched::STRATEGIES));
@@ -404,7 +404,8 @@ static void conc_case(Rng& rng) {
                     case 4: { std::unique_lock<dsched::mutex> l(box_mutex); if (box) { a = box; } break; } // adopt the published one
                     case 5: { std::unique_lock<dsched::mutex> l(box_mutex); box.reset(); break; }
                     case 6: a.swap(b); if (!a) a = b; break;
-                    default: if (a && *a->heap != a->id) verif::fail("C12:concurrent:object-corrupted", g_scenario); break;
+                    case 8: case 9: a.unify(); break;           // clone if shared - while others may be letting go
+                    default: if (a && (*a->heap <= 0 || *a->heap > a->id)) verif::fail("C12:concurrent:object-corrupted", g_scenario); break;   // a clone keeps the value of its original
                     }
                     if (a && !Registry::get().alive(a.get())) { verif::fail("C12:concurrent:destroyed-while-referenced", "a thread holds a handle to a destroyed object | " + g_scenario); break; }
                 }
@@ -415,11 +416,12 @@ static void conc_case(Rng& rng) {
         { std::unique_lock<dsched::mutex> l(box_mutex); box.reset(); }
     }
     dsched::Stats st = S.end();
-    uint64_t died = Registry::get().destroyed - destroyed0;
+    uint64_t died = Registry::get().destroyed - destroyed0, born = Registry::get().constructed - constructed0;
     if (!verif::case_failed()) {
         if (Registry::get().count() != 0) verif::fail("C12:concurrent:not-destroyed", std::to_string(Registry::get().count()) + " object(s) alive after every handle is gone | " + g_scenario);
-        else if (died != nobj) verif::fail("C12:concurrent:destruction-count", std::to_string(died) + " destructions for " + std::to_string(nobj) + " objects | " + g_scenario);
+        else if (died != born) verif::fail("C12:concurrent:destruction-count", std::to_string(died) + " destructions for " + std::to_string(born) + " objects | " + g_scenario);
     }
+    if (born > nobj) verif::count("concurrent_unify_clones", born - nobj);
     Registry::get().live.clear(); Registry::get().errors = 0;
     verif::count("concurrent_histories");
     if (g_serial) { verif::distinct(st.hash); verif::count("schedule_steps", st.steps); }
